@@ -19,7 +19,7 @@ READ — `Table.__init__` (src/numbers_parser/document.py) as written: `num_rows
   `rowStorageMap`, `storage_buffers` = every tile's `last_saved_in_BNC` test then
   `get_storage_buffers_for_row` = Model/RowStorage `rowBuffers` per row-info, the three `None`
   exits of `storage_buffer` = Model/Layout `storageRowWith` + the column test) → `None` gives
-  `Cell._empty_cell`, a buffer goes to `Cell._from_storage` (Model/CellRecord `decode`) whose text
+  `Cell._empty_cell` (= `_from_storage` on the generated constant `EMPTY_STORAGE_BUFFER`), a buffer goes to `Cell._from_storage` (Model/CellRecord `decode`) whose text
   branch calls `table_string` (Model/Layout `addTable` / `tableString`, `KeyError → ''`).
 
 Outside this model (other properties): the merge map itself (`recalculate_merged_cells` /
@@ -150,12 +150,11 @@ def saveTable (data : List (List TCell)) : PyM SavedTable := do
 
 /-! ### read path -/
 
-/-- what `Table.__init__` puts into `_data[row][col]`: a merged placeholder, `Cell._empty_cell`
-    (no stored record), or the result of `Cell._from_storage` — the decoded record and, for a
-    `TextCell`, the string `table_string` returned. -/
+/-- what `Table.__init__` puts into `_data[row][col]`: a merged placeholder, or the result of
+    `Cell._from_storage` — the decoded record and, for a `TextCell`, the string `table_string`
+    returned. (`Cell._empty_cell` is `_from_storage` on `EMPTY_STORAGE_BUFFER`.) -/
 inductive LCell where
   | merged
-  | empty
   | stored (d : Decoded) (text : Option Text)
   deriving DecidableEq, Repr
 
@@ -210,7 +209,7 @@ def loadCell (mr : Nat → Nat → Bool) (m : Layout.RowMap) (bufs : PyM (List (
     (idx : Layout.Index Text) (row col : Nat) : PyM LCell :=
   if mr row col then .ok .merged else do
     match ← storageBufferWith m bufs row col with
-    | none => pure .empty
+    | none => cellFromStorage idx Gen.EMPTY_STORAGE_BUFFER          -- `Cell._empty_cell`
     | some b => cellFromStorage idx b
 
 /-- `Table.__init__`: the row map, the decoded rows and the string index are computed once
@@ -233,7 +232,6 @@ def kindOfD : DKind → Kind
 /-- the in-memory cell after `Table.__init__`, as the next `recalculate_table_data` sees it. -/
 def recell : LCell → TCell
   | .merged => { kind := .merged, payload := [], text := [], stringId := none, ids := {} }
-  | .empty => { kind := .empty, payload := [], text := [], stringId := none, ids := {} }
   | .stored d t =>
     { kind := kindOfD d.kind,
       payload := ((d.d128.orElse fun _ => d.double).orElse fun _ => d.seconds).getD [],
